@@ -532,7 +532,7 @@ func checkC03(c *Ctx) (string, []string) {
 	}
 	for _, f := range c.SrcFuncs("PVM") {
 		allInstrs(f, func(in ssa.Instruction) {
-			if _, ok := in.(*ssa.Panic); !ok {
+			if p, ok := in.(*ssa.Panic); !ok || isRangeFuncGuard(p) {
 				return
 			}
 			why, ok := allowed[funcKey(f)]
